@@ -157,7 +157,7 @@ def gen_cases(tier: str, seed: int) -> List[Dict]:
     # 1. rebuild of inputs and of results of operations
     exprs = [0, ["add", 0, 1], ["sub", 0, 1], ["mul", 0, 1], ["neg", 0], ["pow", 0, 2], ["sub", ["mul", 0, 1], 1]]
     shapes = [((), ()), ((2,), ()), ((2,), (2,)), ((1, 2), (2, 1)), ((2, 2), (2,))]
-    reps = 8 if quick else 100
+    reps = 8 if quick else 900
     for _ in range(reps):
         for ex in exprs:
             s1, s2 = rng.choice(shapes)
